@@ -39,6 +39,7 @@ type Env struct {
 	Violations []map[string]any
 	distinct   map[uint64]struct{}
 	Evals      int
+	unattributed int
 }
 
 func NewEnv(t *testing.T, engine string) *Env {
@@ -107,10 +108,19 @@ func (e *Env) Distinct(h uint64) bool {
 }
 
 func (e *Env) Violation(v map[string]any) {
-	if len(e.Violations) < 20 {
+	e.Dist["monitor_violation"]++
+	if f, ok := v["finding"].(string); ok && f != "" {
+		// violations attributed to a listed finding: a few witnesses each are enough
+		e.Dist["finding_"+f]++
+		if e.Dist["finding_"+f] <= 3 {
+			e.Violations = append(e.Violations, v)
+		}
+		return
+	}
+	e.unattributed++
+	if e.unattributed <= 50 { // anything not attributed is always kept
 		e.Violations = append(e.Violations, v)
 	}
-	e.Dist["monitor_violation"]++
 }
 
 func (e *Env) Close(t *testing.T) {
